@@ -13,7 +13,7 @@ EXPLANATION = ('DiffParser/_NodesTree/difflib are not modelled in Gallina (DESIG
 LEVEL_TEXT = EXPLANATION
 ASSUMPTIONS = ['the locality theorems (tok_shift, tok_resume, parse_stmt_local) that would justify node copying are not proved; C04 is decided by validation of histories only']
 
-FRAGS = [' ', '\t', '\n', '\r', '\f', 'f"', 'F"""', "fr'", "RF'''", '"', '"""', "'", "'''", ';', ' some_random_word ', '\\', '#',
+FRAGS = [' ', '\t', '\n', '\r', '\f', '\x0b', '\x1c', '\x1d', '\x1e', '\x85', '\u2028', '\u2029', '\n\f\n', '# c\x85d', '\f\n   ', 'f"', 'F"""', "fr'", "RF'''", '"', '"""', "'", "'''", ';', ' some_random_word ', '\\', '#',
          'def ', 'class ', 'if ', 'else', 'elif ', 'for ', 'while ', 'try', 'except', 'finally', 'with ', 'return ', 'lambda ', 'import ',
          'from ', 'pass', '(', ')', '[', ']', '{', '}', ':', ',', '=', '@', '    ', 'async ', 'await ', 'yield ', '﻿', 'x', '1']
 
